@@ -29,7 +29,7 @@ def run(tier):
     open(mod, "w").write("---- MODULE MCSchema ----\nEXTENDS Schema, Json\nCat == " + schema_cat.tla_catalogue(cat) + "\n"
                          "Emit(i) == PrintT(\"EDGE \" \\o ToJson([from |-> db, op |-> i, acc |-> Accept(Catalogue[i]), to |-> db']))\n"
                          "EdgeNext == \\E i \\in 1..Len(Catalogue) : Submit(i) /\\ Emit(i)\nEdgeSpec == Init /\\ [][EdgeNext]_vars\n"
-                         "Bound == nsub <= %d\nDbView == db\n====\n" % (3 if tier == "quick" else 4))
+                         "Bound == nsub <= %d\nDbView == db\n====\n" % (3 if tier == "quick" else 5))
     try:
         c1 = os.path.join(vlib.scratch(), "schema.cfg")
         open(c1, "w").write("SPECIFICATION Spec\nCONSTANTS\n Catalogue <- Cat\nCONSTRAINT Bound\nPROPERTIES C15_Additive\n")
